@@ -224,6 +224,27 @@ def eval_shard(path):
     return path, parse_M(out), out[-500:], time.time() - t
 
 
+def crash_in_repo(out):
+    """If the harness died with a Go fatal error / panic whose innermost non-runtime frame is in the repository under
+    test, return that frame's function name; else None."""
+    if not re.search(r"(?m)^(panic:|fatal error:|SIGSEGV|\[signal |unexpected fault address)", out) and "SIGSEGV" not in out:
+        return None
+    m = re.search(r"(?m)^goroutine \d+ .*\[running\]:\n((?:.*\n)*?)(?:\n|\Z)", out)
+    if not m:
+        return None
+    lines = m.group(1).splitlines()
+    for i in range(0, len(lines) - 1):
+        fn, loc = lines[i], lines[i + 1].strip()
+        if not lines[i + 1].startswith("\t"):
+            continue
+        if "/src/runtime/" in loc or "/src/testing/" in loc or "/src/reflect/" in loc:
+            continue
+        if loc.startswith(REPO + "/"):
+            return fn.split("(")[0].strip()
+        return None      # innermost user frame is harness code: not attributed to the library
+    return None
+
+
 def load_known(pid):
     """KNOWN_FINDINGS.txt lines:  finding: property=C15 match=<regex> :: text     (fixed: lines suppress nothing)"""
     res = []
@@ -402,7 +423,14 @@ def main(argv):
         notes["harness_tail_" + run["name"]] = hout[-1500:]
         if rc != 0 or not os.path.exists(os.path.join(rdir, "meta.json")):
             harness_ok = False
-            broken.append({"what": "correspondence: harness run %s failed (exit %s)" % (run["name"], rc), "detail": hout[-3000:]})
+            crash = crash_in_repo(hout)
+            if crash:
+                # the process died inside the library's own code (fatal signal / unrecovered panic): a concrete failure
+                failures.append({"kind": 2, "label": "crash", "step_label": crash, "shard": -1, "idx": -1, "step": 0,
+                                 "replay": {"what": "the code under test crashed the harness process", "top_library_frame": crash,
+                                            "trace": hout[-4000:], "seed": seed, "tier": tier, "run": run["name"]}})
+            else:
+                broken.append({"what": "correspondence: harness run %s failed (exit %s)" % (run["name"], rc), "detail": hout[-3000:]})
             continue
         m1, f1, e1, n1, c1 = evaluate_cases(rdir)
         metas.append(m1)
